@@ -14,6 +14,37 @@ import corpus
 import genruns
 
 DOCUMENTED_ERRORS = ("ValueError", "TypeError")
+_DOC_PREFIXES = None
+
+
+def documented_prefixes():
+    """message prefixes of the ValueError / TypeError that cobyqa itself raises for malformed arguments
+    (collected from the `raise` statements of /repo's source)"""
+    global _DOC_PREFIXES
+    if _DOC_PREFIXES is None:
+        import ast, glob
+        out = set()
+        for path in glob.glob(os.path.join(common.REPO, "cobyqa", "**", "*.py"), recursive=True):
+            if os.sep + "tests" + os.sep in path:
+                continue
+            try:
+                tree = ast.parse(open(path).read())
+            except SyntaxError:
+                continue
+            for node in ast.walk(tree):
+                if isinstance(node, ast.Raise) and isinstance(node.exc, ast.Call) and getattr(node.exc.func, "id", "") in DOCUMENTED_ERRORS and node.exc.args:
+                    a = node.exc.args[0]
+                    if isinstance(a, ast.Constant) and isinstance(a.value, str):
+                        out.add(a.value[:25])
+                    elif isinstance(a, ast.JoinedStr) and a.values and isinstance(a.values[0], ast.Constant):
+                        out.add(str(a.values[0].value)[:25])
+        _DOC_PREFIXES = out
+    return _DOC_PREFIXES
+
+
+def is_documented_error(text):
+    kind, _, msg = text.partition(": ")
+    return kind in DOCUMENTED_ERRORS and any(msg.startswith(p) for p in documented_prefixes())
 
 
 def _work(item):
@@ -41,6 +72,13 @@ def _work(item):
         summ["n_geom"] = sum(1 for e in ev if e == "geom")
         summ["n_cb"] = sum(1 for e in ev if e.startswith("cb "))
         summ["pyexc"] = [e for e in ev if e.startswith("pyexc")]
+        ret = out["rec"].extra.get("returned", [])
+        B = 2.0 ** 100
+        summ["barrier_ok"] = all(abs(f) <= B and bool(np.all(np.abs(cu) <= B)) and bool(np.all(np.abs(ce) <= B)) for f, cu, ce in ret)
+        summ["n_returned"] = len(ret)
+        summ["wellformed"] = all(hasattr(res, k) for k in ("x", "fun", "maxcv", "status", "success", "message", "nfev", "nit")) and \
+            isinstance(res.success, (bool, np.bool_)) and np.ndim(res.x) == 1 and len(res.x) == len(desc["x0"])
+        summ["nan_success"] = bool(res.success) and not (np.isfinite(res.fun) and np.isfinite(res.maxcv))
         try:
             summ["truth"] = trace.truth_at_result(out, pb)
         except Exception as exc:  # noqa
@@ -141,7 +179,7 @@ def run_check(chk, rng, replay, prop, modules, focus, n_quick, n_thorough, own_t
             text = v[1]
             if text == "timeout":
                 timeouts.append((s, v))
-            elif text.split(":")[0] in DOCUMENTED_ERRORS:
+            elif is_documented_error(text):
                 stat["documented_error"] += 1
             else:
                 escaped.append((s, v))
